@@ -16,7 +16,7 @@ PUMPS = [{'power': 0.224403, 'frequency': 205e12, 'propagation_direction': 'coun
 CHAINS = [
     'F80', 'F0.05', 'F10', 'F120', 'F200', 'F460', 'F1500', 'F80_F60', 'F40_U_F30', 'U_F60', 'F60_U', 'F30_U_U_F20',
     'E_F80', 'F80_E', 'F80_E_F70', 'Efull_F100_Efull', 'Etype_F100_Egain', 'Evoa_F90_Edp', 'F100lumped', 'F200lumped',
-    'F200att', 'F80perfreq', 'R80_E', 'F80_R80', 'F100_F100_F100', 'Evoa_F100', 'Evoa_F70_F70', 'F80_Evoa',
+    'F200att', 'F80perfreq', 'R80_E', 'F80_R80', 'F100_F100_F100', 'Evoa_F100', 'Evoa_F70_F70', 'F80_Evoa', 'F80conin', 'F80conout',
 ]
 
 
@@ -55,6 +55,9 @@ def chain(kind, amp_low='std_low_gain', amp_med='std_medium_gain'):
         'Evoa_F70_F70': [e(None, out_voa=3.5), f(70), f(70)],
         # the last amplifier of the link (the preamplifier slot) carries an operator VOA
         'F80_Evoa': [f(80), e(None, out_voa=1.5)],
+        # only one of the two connector losses is given: the other one takes the Span default
+        'F80conin': [f(80, con_in=0.3)],
+        'F80conout': [f(60, con_out=0.7), f(40)],
     }
     return copy.deepcopy(table[kind])
 
@@ -74,7 +77,13 @@ SPAN_SPACE = {
 
 def library(case, base='test'):
     """equipment JSON with the Span / SI variations of the case applied"""
-    eq = c.eqpt_json({'test': 'test', 'example': 'eqpt_config.json', 'multiband': 'eqpt_config_multiband.json'}[case.get('eq', base)])
+    eq = c.eqpt_json({'test': 'test', 'example': 'eqpt_config.json', 'multiband': 'eqpt_config_multiband.json',
+                      'example_p228': 'eqpt_config.json'}[case.get('eq', base)])
+    if case.get('eq') == 'example_p228':
+        # two models whose maximum output powers differ by less than the 0.3 dB selection tolerance
+        for e in eq['Edfa']:
+            if e['type_variety'] == 'std_low_gain':
+                e['p_max'] = 22.8
     if case.get('drop_ter'):
         # the multiband library without its low-power '_ter' family
         eq['Edfa'] = [e for e in eq['Edfa'] if not e['type_variety'].endswith('_ter')]
@@ -114,6 +123,9 @@ LBN = {'f_min': 187.4e12, 'f_max': 190.0e12, 'spacing': 50e9}
 
 def roadm_params(case, sites):
     """ROADM design bands: 'C' (single band) or 'CL' (two bands: auto-design must build a multiband line system)"""
+    if case.get('band_spacing'):
+        # a single design band whose channel spacing differs from the SI one: the design load of every OMS is counted on it
+        return {s: {'params': {'design_bands': [dict(CB, spacing=case['band_spacing'])]}} for s in sites}
     if case.get('eq') != 'multiband':
         return None
     b = case.get('bands', 'C')
